@@ -165,45 +165,111 @@ def splice(out, i, g, args, dest, target, unwind_to, t, p):
 
 
 def inline_consts(raw, consts):
-    """`x = const P` where P is a new named constant of the crate whose initialiser is one call without operands
-    (`needs_drop::<U>()`, `size_of::<T>()`) or one constant: the read is replaced by the initialiser.  Only for reads
+    """`const P` read anywhere (an assignment, an argument of a call, an operand of a comparison), P being a new named
+    constant of the crate whose initialiser is one constant, one field-less aggregate (`Ordering::Acquire`) or one call
+    without operands (`needs_drop::<U>()`, `size_of::<T>()`): the read is replaced by the initialiser.  Only for reads
     with the identity substitution (P's own generic parameters), where the initialiser's text means the same thing."""
+    def init_of(op):
+        if not isinstance(op, dict) or op.get('k') != 'const':
+            return None
+        g = consts.get(op.get('uneval'))
+        if g is None or g.get('arg_count') or op.get('promoted') is not None:
+            return None
+        ua = op.get('uneval_args') or []
+        if ua and ('<%s>' % ', '.join(ua)) not in g['path']:
+            return None
+        gb = g['blocks']
+        if len(gb) == 1 and len(gb[0]['stmts']) == 1 and gb[0]['stmts'][0].get('k') == 'assign' and gb[0]['stmts'][0]['place']['l'] == 0 and gb[0]['term']['k'] == 'return':
+            rv = gb[0]['stmts'][0]['rv']
+            if rv.get('k') == 'use' and rv['op'].get('k') == 'const' and not rv['op'].get('uneval'):
+                return ('const', rv['op'])
+            if rv.get('k') == 'aggregate' and not rv.get('ops'):
+                return ('agg', rv, gb[0]['stmts'][0]['place'].get('ty'))
+        if len(gb) == 2 and not gb[0]['stmts'] and gb[0]['term']['k'] == 'call' and not gb[0]['term']['args'] \
+                and gb[0]['term']['dest'].get('l') == 0 and not gb[0]['term']['dest'].get('p') and gb[0]['term'].get('target') == 1 \
+                and gb[1]['term']['k'] == 'return' and not gb[1]['stmts']:
+            return ('call', gb[0]['term'])
+        return None
+
+    def mentions(node):
+        if isinstance(node, dict):
+            if node.get('k') == 'const' and node.get('uneval') in consts:
+                return True
+            return any(mentions(v) for v in node.values())
+        if isinstance(node, list):
+            return any(mentions(v) for v in node)
+        return False
+    if not any(mentions(b['stmts']) or mentions(b['term']) for b in raw['blocks']):
+        return raw
+    raw = copy.deepcopy(raw)
+
+    def new_local(ty):
+        raw['locals'].append({'ty': ty, 'adt': None})
+        return len(raw['locals']) - 1
+
+    def subst(node, pre, line):
+        """replace constant operands inside `node` (in place); statements to run before go to `pre`"""
+        if isinstance(node, list):
+            for i, v in enumerate(node):
+                r = subst(v, pre, line)
+                if r is not None:
+                    node[i] = r
+            return None
+        if not isinstance(node, dict):
+            return None
+        ini = init_of(node)
+        if ini is not None and ini[0] == 'const':
+            return copy.deepcopy(ini[1])
+        if ini is not None and ini[0] == 'agg':
+            l = new_local(ini[2] or node.get('ty') or '?')
+            pre.append({'k': 'assign', 'place': {'l': l, 'p': [], 'ty': ini[2] or node.get('ty') or '?'}, 'rv': copy.deepcopy(ini[1]), 'line': line, 'syn': True})
+            return {'k': 'move', 'place': {'l': l, 'p': [], 'ty': ini[2] or node.get('ty') or '?'}}
+        for k, v in list(node.items()):
+            if k in ('func',):
+                continue
+            r = subst(v, pre, line)
+            if r is not None:
+                node[k] = r
+        return None
+    # 1. constants and field-less aggregates: anywhere
+    for b in raw['blocks']:
+        out = []
+        for st in b['stmts']:
+            pre = []
+            if st.get('k') == 'assign':
+                r = subst(st['rv'], pre, st.get('line'))
+                if r is not None:      # the rvalue itself was `use const P` handled below through its operand
+                    st['rv'] = r
+            out += pre + [st]
+        pre = []
+        t = b['term']
+        for key in ('args', 'discr', 'cond'):
+            if key in t:
+                r = subst(t[key], pre, t.get('line'))
+                if r is not None:
+                    t[key] = r
+        b['stmts'] = out + pre
+    # 2. initialisers that are one operand-less call: reads that are whole assignments `x = const P`
     todo = []
     for i, b in enumerate(raw['blocks']):
         for j, st in enumerate(b['stmts']):
-            if st.get('k') != 'assign' or st['rv'].get('k') != 'use' or st['rv']['op'].get('k') != 'const':
-                continue
-            op = st['rv']['op']
-            g = consts.get(op.get('uneval'))
-            if g is None or g.get('arg_count'):
-                continue
-            ua = op.get('uneval_args') or []
-            if ua and ('<%s>' % ', '.join(ua)) not in g['path']:
-                continue
-            todo.append((i, j, g))
-    if not todo:
-        return raw
-    raw = copy.deepcopy(raw)
+            if st.get('k') == 'assign' and st['rv'].get('k') == 'use':
+                ini = init_of(st['rv']['op'])
+                if ini is not None and ini[0] == 'call':
+                    todo.append((i, j, ini[1]))
     # later statements first, so that indices of the earlier ones stay valid
-    for i, j, g in sorted(todo, key=lambda x: (-x[0], -x[1])):
-        gb = g['blocks']
+    for i, j, gt in sorted(todo, key=lambda x: (-x[0], -x[1])):
         b = raw['blocks'][i]
         st = b['stmts'][j]
-        if len(gb) == 2 and not gb[0]['stmts'] and gb[0]['term']['k'] == 'call' and not gb[0]['term']['args'] \
-                and gb[0]['term']['dest'] == {'l': 0, 'p': [], 'ty': gb[0]['term']['dest'].get('ty')} and gb[0]['term'].get('target') == 1 \
-                and gb[1]['term']['k'] == 'return' and not gb[1]['stmts']:
-            rest = {'cleanup': b['cleanup'], 'stmts': b['stmts'][j + 1:], 'term': b['term']}
-            raw['blocks'].append(rest)
-            t = copy.deepcopy(gb[0]['term'])
-            t['dest'] = copy.deepcopy(st['place'])
-            t['target'] = len(raw['blocks']) - 1
-            t['unwind'] = 'continue' if not b['cleanup'] else 'terminate'
-            t['line'] = st.get('line', t.get('line'))
-            t['file'] = raw.get('file')
-            t['syn'] = True
-            b['stmts'] = b['stmts'][:j]
-            b['term'] = t
-        elif len(gb) == 1 and len(gb[0]['stmts']) == 1 and gb[0]['stmts'][0].get('k') == 'assign' and gb[0]['stmts'][0]['place']['l'] == 0 \
-                and gb[0]['stmts'][0]['rv'].get('k') == 'use' and gb[0]['stmts'][0]['rv']['op'].get('k') == 'const' and gb[0]['term']['k'] == 'return':
-            st['rv'] = copy.deepcopy(gb[0]['stmts'][0]['rv'])
+        rest = {'cleanup': b['cleanup'], 'stmts': b['stmts'][j + 1:], 'term': b['term']}
+        raw['blocks'].append(rest)
+        t = copy.deepcopy(gt)
+        t['dest'] = copy.deepcopy(st['place'])
+        t['target'] = len(raw['blocks']) - 1
+        t['unwind'] = 'continue' if not b['cleanup'] else 'terminate'
+        t['line'] = st.get('line', t.get('line'))
+        t['file'] = raw.get('file')
+        t['syn'] = True
+        b['stmts'] = b['stmts'][:j]
+        b['term'] = t
     return raw
